@@ -10,6 +10,7 @@ for f in "$HERE"/proposed_fixes/C09_*.patch; do git -C "$WT" apply "$f" 2>/dev/n
 [ $# -gt 0 ] || set -- "$HERE"/selftest/C09/m*.patch
 rc_all=0
 for p in "$@"; do
+  case "$p" in /*) ;; *) p="$PWD/$p";; esac
   git -C "$WT" apply "$p" || { echo "CANNOT APPLY $p"; rc_all=2; continue; }
   (cd "$HERE" && VERIF_OUT="$OUTD" VERIF_REPO="$WT" ./check C09 --tier quick > "$OUTD/log" 2>&1); rc=$?
   clauses=$(grep -o 'violated clause [A-Za-z]*' "$OUTD/log" | sort | uniq -c | awk '{printf "%s(%s) ", $4, $1}')
